@@ -1,3 +1,4 @@
+// @mode sym line
 //! mode `sym`: operation sequences on the real `SymbolTable` chain (C18)
 use std::sync::{Arc, Mutex};
 
